@@ -1,8 +1,9 @@
 (* C17 — declared feature types are enforced exactly as documented.  Property theorems only. *)
-From Coq Require Import List Bool.
+From Coq Require Import List Bool String.
 Import ListNotations.
 Require Import MV.Spec.Types MV.Model.Validate MV.Gen.TypeTables MV.Proofs.TypesP.
 Require Import MV.Model.ValidateChain MV.Proofs.ValidateChainP.
+Require Import MV.Model.ValidateSet MV.Model.ValidateSetCheck MV.Proofs.ValidateSetP.
 
 (* The code's two compatibility relations and its Arrow->DataType map, regenerated from /repo on this run by
    evaluating them on all 121 pairs / 24 Arrow types, equal the documented tables. *)
@@ -130,3 +131,141 @@ Example C17_chain_depth3_raises :
       {| l_declared := Some STRING; l_actual := Some STRING; l_own := SAbsent |};
       {| l_declared := Some INT32; l_actual := Some INT64; l_own := SAbsent |} ] = COk.
 Proof. vm_compute; split; reflexivity. Qed.
+
+(* ---- WHICH features of a run are type-checked (Model/ValidateSet.v): the features the user wrote carry their declaration, the
+        features the engine adds by itself (index / join-key features for Links, filter features for a GlobalFilter) carry none ---- *)
+
+(* the index features the engine creates (create_index_feature) never carry a declared type: for every group, every set of links,
+   every feature they are created for *)
+Theorem C17_index_features_undeclared : forall gi g links owner e,
+  In e (add_index_features create_index_feature gi g links owner) -> e_type e = None.
+Proof. exact (index_features_untyped _ create_index_feature_untyped). Qed.
+Print Assumptions C17_index_features_undeclared.
+
+(* the set of TYPED features of the collection = exactly the features the user wrote a declaration for (own declaration or the
+   group's return_data_type_rule), each with exactly that declaration - for any number of groups, links, indexes and filters given
+   by column name *)
+Theorem C17_checked_exactly_the_declared : forall groups links filters us coll,
+  undeclared_filters filters ->
+  collect groups links filters us = Some coll ->
+  forall e d, (In e coll /\ e_type e = Some d) <->
+              exists u, In u us /\ declared_type groups u = Some (Some d) /\ e = user_entry u (Some d).
+Proof. exact (collect_typed_exact _ create_index_feature_untyped). Qed.
+Print Assumptions C17_checked_exactly_the_declared.
+
+(* without the restriction on filters: the only other typed features are filter features on which the user declared the type *)
+Theorem C17_typed_features_are_user_declared : forall groups links filters us coll e d,
+  collect groups links filters us = Some coll -> In e coll -> e_type e = Some d ->
+  (exists u, In u us /\ declared_type groups u = Some (Some d) /\ e = user_entry u (Some d)) \/
+  (exists f u g, In f filters /\ In u us /\ nth_error groups (u_group u) = Some g /\ filter_matches g f = true /\
+                 f_decl f = Some d /\ e_group e = u_group u /\ e_name e = f_name f).
+Proof. exact (collect_typed_sound _ create_index_feature_untyped). Qed.
+Print Assumptions C17_typed_features_are_user_declared.
+
+Theorem C17_user_features_all_present : forall groups links filters us coll u,
+  collect groups links filters us = Some coll -> In u us ->
+  exists t, declared_type groups u = Some t /\ In (user_entry u t) coll.
+Proof. exact (collect_user_complete create_index_feature). Qed.
+Print Assumptions C17_user_features_all_present.
+
+(* the run is rejected at prepare time iff a user declaration conflicts with the group's rule; otherwise it fails with a mismatch
+   EXACTLY when a feature the user declared a type for produced an incompatible column under the table its strict option selects *)
+Theorem C17_run_set_decision : forall strict lenient groups links filters us cols,
+  undeclared_filters filters ->
+  (run_set strict lenient groups links filters us cols = SReject <-> exists u, In u us /\ declared_type groups u = None) /\
+  (run_set strict lenient groups links filters us cols = SMismatch <->
+     (forall u, In u us -> declared_type groups u <> None) /\ exists u, In u us /\ user_incompatible strict lenient groups cols u).
+Proof. exact (run_set_decision _ create_index_feature_untyped). Qed.
+Print Assumptions C17_run_set_decision.
+
+(* Links, index columns and filters by column name never change the verdict of a run *)
+Theorem C17_added_features_never_change_the_verdict : forall strict lenient groups links filters us cols,
+  undeclared_filters filters ->
+  run_set strict lenient groups links filters us cols = run_set strict lenient groups None [] us cols.
+Proof. exact run_set_added_irrelevant. Qed.
+Print Assumptions C17_added_features_never_change_the_verdict.
+
+(* what the statements need of the index-feature constructor is only that it leaves the type undeclared ... *)
+Theorem C17_any_undeclared_index_constructor : forall mkidx,
+  (forall gi idx owner, e_type (mkidx gi idx owner) = None) ->
+  forall strict lenient groups links filters us cols, undeclared_filters filters ->
+  (run_set_with mkidx strict lenient groups links filters us cols = SMismatch <->
+     (forall u, In u us -> declared_type groups u <> None) /\ exists u, In u us /\ user_incompatible strict lenient groups cols u).
+Proof. intros mkidx H strict lenient groups links filters us cols Hf. exact (proj2 (run_set_decision mkidx H strict lenient groups links filters us cols Hf)). Qed.
+Print Assumptions C17_any_undeclared_index_constructor.
+
+(* ... and an index feature that takes over the declaration of the feature it is created for breaks it: Users(uid:string, age) and
+   Orders(uid:string, amount) linked on uid, age declared INT32 and amount DOUBLE and produced as such - the run must succeed and
+   the inheriting variant reports a mismatch (on the key nobody declared) *)
+Theorem C17_index_inherit_refuted :
+  run_set_with index_inherit strict_spec lenient_spec wit_groups wit_links [] wit_us wit_cols = SMismatch
+  /\ run_set strict_spec lenient_spec wit_groups wit_links [] wit_us wit_cols = SOk
+  /\ run_set strict_spec lenient_spec wit_groups None [] wit_us wit_cols = SOk.
+Proof. exact index_inherit_refuted_l. Qed.
+Print Assumptions C17_index_inherit_refuted.
+
+(* per-call flag on a request with input features: every user feature is judged strictly (ties Model/ValidateSet.flatten to the
+   chain model's option merge) *)
+Theorem C17_flatten_api_all_strict : forall rs,
+  (forall r, In r rs -> r_own r <> SFalse /\ forall d, In d (r_deps r) -> d_own d <> SFalse) ->
+  exists us, flatten true rs = Some us /\ forall u, In u us -> u_strict u = STrue.
+Proof. exact flatten_api_all_strict. Qed.
+Print Assumptions C17_flatten_api_all_strict.
+
+(* non-vacuity: a declared value feature with a wrong column is still rejected with links present; a declared key is checked *)
+Example C17_set_examples :
+  run_set strict_spec lenient_spec wit_groups wit_links [] wit_us
+          [ [("uid"%string, Some STRING); ("age"%string, Some STRING)]; [("uid"%string, Some STRING); ("amount"%string, Some DOUBLE)] ] = SMismatch
+  /\ run_set strict_spec lenient_spec wit_groups wit_links [ {| f_name := "uid"%string; f_decl := None; f_own := SAbsent |} ]
+          ({| u_group := 0; u_name := "uid"%string; u_decl := Some INT64; u_strict := SAbsent |} :: wit_us) wit_cols = SMismatch
+  /\ run_set strict_spec lenient_spec wit_groups wit_links [ {| f_name := "uid"%string; f_decl := None; f_own := SAbsent |} ]
+          ({| u_group := 0; u_name := "uid"%string; u_decl := Some STRING; u_strict := SAbsent |} :: wit_us) wit_cols = SOk.
+Proof. vm_compute; repeat split. Qed.
+
+(* ---- the statement in executable form (Model/ValidateSetCheck.spec_request: a function of the user's declarations alone - links,
+        indexes and index columns do not occur in it) is the verdict of the engine model, for ALL requests; this is what the
+        correspondence evaluates on every generated request (chk_links_spec) next to the model itself (chk_links) ---- *)
+Theorem C17_verdict_depends_on_declarations_only : forall strict lenient groups links filters api rs cols,
+  fst (run_request strict lenient groups links filters api rs cols) = spec_request strict lenient groups filters api rs cols.
+Proof. exact run_request_is_spec. Qed.
+Print Assumptions C17_verdict_depends_on_declarations_only.
+
+(* the typed part of the collection = declared_entries (user features with a resulting declaration + filter features the user
+   declared a type on), with declared filters allowed *)
+Theorem C17_typed_collection_is_declared : forall groups links filters us coll,
+  collect groups links filters us = Some coll ->
+  forall e, typed e = true -> (In e coll <-> In e (declared_entries groups filters us)).
+Proof. exact typed_collection_is_declared. Qed.
+Print Assumptions C17_typed_collection_is_declared.
+
+Theorem C17_declared_entries_of_user_features : forall groups filters us e,
+  undeclared_filters filters ->
+  (In e (declared_entries groups filters us) <->
+   exists u d, In u us /\ declared_type groups u = Some (Some d) /\ e = user_entry u (Some d)).
+Proof. exact declared_entries_undeclared_filters. Qed.
+Print Assumptions C17_declared_entries_of_user_features.
+
+(* a request that meets no prepare-time error (option conflict / declaration vs group rule, in the order the engine meets them)
+   flattens to user features that all have a resulting declaration *)
+Theorem C17_prepare_ok_flatten : forall groups api rs,
+  api_conflict api rs = false -> prepare_error groups api rs = None ->
+  exists us, flatten api rs = Some us /\ existsb (undeclarable groups) us = false.
+Proof. exact prepare_ok_flatten. Qed.
+Print Assumptions C17_prepare_ok_flatten.
+
+(* known-defect domain (C17-two-declared-types-on-a-joined-root-rejected, outside this model: the planner refuses the request):
+   the domain predicate is satisfiable and the statement demands success there *)
+Example C17_kf_split_domain_witness :
+  let groups := [ {| g_cols := ["uid"%string; "a"%string; "b"%string]; g_index := [["uid"%string]]; g_rule := [] |};
+                  {| g_cols := ["uid"%string; "c"%string]; g_index := [["uid"%string]]; g_rule := [] |};
+                  {| g_cols := ["score"%string]; g_index := []; g_rule := [] |} ] in
+  let rs := [ {| r_group := 2; r_name := "score"%string; r_decl := Some DOUBLE; r_own := SAbsent;
+                 r_deps := [ {| d_group := 0; d_name := "a"%string; d_decl := Some INT64; d_own := SAbsent |};
+                             {| d_group := 0; d_name := "b"%string; d_decl := Some STRING; d_own := SAbsent |};
+                             {| d_group := 1; d_name := "c"%string; d_decl := Some DOUBLE; d_own := SAbsent |} ] |} ] in
+  let cols := [ [("uid"%string, Some STRING); ("a"%string, Some INT64); ("b"%string, Some STRING)];
+                [("uid"%string, Some STRING); ("c"%string, Some DOUBLE)]; [("score"%string, Some DOUBLE)] ] in
+  (match flatten false rs with Some us => kf_split_joined_root groups wit_links us | None => false end) = true
+  /\ spec_request strict_spec lenient_spec groups [] false rs cols = QOk
+  /\ (match flatten false wit_rs_one_type with Some us => kf_split_joined_root groups wit_links us | None => true end) = false.
+Proof. vm_compute; repeat split. Qed.
